@@ -24,6 +24,9 @@ type c20Params struct {
 	Backing  string `json:"backing"` // file | buffer
 	// Script, when non-empty, is a fixed program: "a<i>" add universe[i], "f" flush, "r" reopen.
 	Script []string `json:"script,omitempty"`
+	// Carved: the hashes handed to Add are sub-slices of one arena (capacity reaching over the following hashes) instead
+	// of separately allocated slices; the caller never writes to the arena again.
+	Carved bool `json:"carved,omitempty"`
 }
 
 func c20Universe(rng *rand.Rand, n int) [][]byte {
@@ -188,6 +191,16 @@ func c20Run(c *fw.Case, env *fw.Env) *fw.Obs {
 	model := map[string]bool{}
 	pending := 0
 	var trace []string
+	var arena, arenaCopy []byte
+	carve := make([][]byte, len(univ))
+	if p.Carved {
+		arena = make([]byte, 16*len(univ))
+		for slot, i := range rng.Perm(len(univ)) {
+			copy(arena[16*slot:], univ[i])
+			carve[i] = arena[16*slot : 16*slot+16] // capacity runs on over the hashes stored behind it
+		}
+		arenaCopy = append([]byte(nil), arena...)
+	}
 	step := func(op string) bool {
 		trace = append(trace, op)
 		switch op[0] {
@@ -195,6 +208,9 @@ func c20Run(c *fw.Case, env *fw.Env) *fw.Obs {
 			var i int
 			fmt.Sscanf(op[1:], "%d", &i)
 			h := append([]byte(nil), univ[i%len(univ)]...) // fresh slice per Add, as RowCollector does
+			if p.Carved {
+				h = carve[i%len(univ)]
+			}
 			was := model[string(h)]
 			var err error
 			if pn := fw.Catch(func() { err = hs.Add(h) }); pn != "" {
@@ -289,6 +305,9 @@ func c20Run(c *fw.Case, env *fw.Env) *fw.Obs {
 	if back.f != nil {
 		back.f.Close()
 	}
+	if p.Carved && !bytes.Equal(arena, arenaCopy) {
+		o.Violate("caller-memory-modified/HashSet.Add", "the hashes handed to Add were slices of one caller-owned buffer; the set wrote into that buffer (first difference at byte %d) - trace %v", firstDiff(arena, arenaCopy), trace)
+	}
 	buckets := map[byte]int{}
 	for h := range model {
 		buckets[h[0]]++
@@ -318,8 +337,8 @@ func init() {
 	fw.Register(&fw.Property{
 		ID:          "C20",
 		Level:       "exploration",
-		Rule:        "seeded Add/Flush/reopen programs over a small hash universe (few first bytes incl. 0x00/0xFF, few tails) x batch sizes x file/buffer backing; after every flush and reopen Has is compared with a Go map for EVERY hash of the universe and the raw file is checked for sorted entries and a consistent fan-out; distinct_nontrivial = distinct (universe,batch,backing,members,seed) programs with >=2 members and >=1 flush",
-		Assumptions: []string{"callers pass a fresh 16-byte slice per Add (as RowCollector does)", "Len() equal to the model size is not demanded"},
+		Rule:        "seeded Add/Flush/reopen programs over a small hash universe (few first bytes incl. 0x00/0xFF, few tails) x batch sizes x file/buffer backing x hashes passed as separate slices or as slices carved from one buffer (which must come back unmodified); after every flush and reopen Has is compared with a Go map for EVERY hash of the universe and the raw file is checked for sorted entries and a consistent fan-out; distinct_nontrivial = distinct (universe,batch,backing,members,seed) programs with >=2 members and >=1 flush",
+		Assumptions: []string{"callers never modify a slice after handing it to Add (fresh slices as RowCollector passes them, or read-only slices of one buffer)", "Len() equal to the model size is not demanded"},
 		Gen: func(tier string, seed int64) []fw.Case {
 			l := fw.NewCaseList("C20", tier, seed)
 			// fixed corpus
@@ -348,10 +367,20 @@ func init() {
 					p.Batch = uint32(1 + rng.Intn(8))
 				}
 				p.Backing = []string{"file", "buffer"}[rng.Intn(2)]
+				p.Carved = rng.Intn(3) == 0
 				l.Add("program", p, 0)
 			}
 			return l.Cases
 		},
 		Run: c20Run,
 	})
+}
+
+func firstDiff(a, b []byte) int {
+	for i := range a {
+		if i >= len(b) || a[i] != b[i] {
+			return i
+		}
+	}
+	return -1
 }
